@@ -13,7 +13,7 @@ META = {
         'path to the pre-evaluation, the stored defaults of the chosen inputs '
         'and of the cells behind them (inverse links of names/ranges) have '
         'been removed, so nothing that depends on an argument is frozen; '
-        '(freeze) what is frozen afterwards is taken from that pre-evaluation '
+        ' (freeze) what is frozen afterwards is taken from that pre-evaluation '
         'and only for nodes without a default; the compiled function receives '
         'the caller\'s input and output lists unchanged; (flag) in '
         'AstBuilder.compile the COMPILING flag is set before the '
@@ -25,7 +25,8 @@ META = {
         'create - the frozen constants and the caller\'s arguments are the '
         'same objects on every call; (history) compile never reads the stored '
         'solution of an earlier calculation, so what it freezes comes from '
-        'the model alone.'),
+        'the model alone.'
+        ' (freeze) what is frozen is taken from the pre-evaluation, only for nodes without default, and the caller\'s lists are passed unchanged; (volatile) every pre-evaluation runs with the COMPILING flag set (= C13.sites).'),
     'not_decided': (
         'Soundness of pruning by blockers for all argument values (branch, '
         'error and shape changes).'),
